@@ -291,7 +291,7 @@ U_HOF = KaniUnit(
     "U-HOF", "`list via f` and map(list, f), `list where p` and filter(list, p): the same callback sequence (element, plus "
     "0-based index iff the callee accepts two arguments, in order, self-reference = the function value), results assembled / "
     "filtered in order, first failing callback fails the form",
-    modules=[("expressions.rs", "verif_hof.rs")],
+    modules=[("expressions.rs", "verif_expr_binop.rs"), ("expressions.rs", "verif_hof.rs")],
     harnesses=["u_hof_via_unary", "u_hof_via_indexed", "u_hof_map_unary", "u_hof_map_indexed",
                "u_hof_where_unary", "u_hof_where_indexed", "u_hof_filter_unary", "u_hof_filter_indexed"],
     functions=[("expressions.rs", "evaluate_binary_op_ast", None), ("functions.rs", "call", "BuiltInFunction")],
@@ -932,12 +932,14 @@ prop("C02", [U_HEAP, U_FRAME_AUDIT, U_GLOBAL_STATE], "other",
       "purity of the built-in arms beyond the heap frame (random(seed) contract written, intractable)"],
      BUILTIN_STUBS)
 
-prop("C13", [U_BINOP_SCALAR, U_HOF], "other",
-     "Quick tier: the scalar via/into arms apply the function exactly once to the left operand with the function value as "
-     "self-reference (U-BINOP-SCALAR, apply group) - `x into f` is f(x). Thorough tier: via/map and where/filter are proved "
-     "against one callback-sequence specification for lists of length <= 2 (bounded, labelled). reduce / every / some / "
-     "sort_by / group_by and real (non-probe) callbacks are NOT decided.",
-     ["reduce, every, some, sort_by, group_by, count_by", "lists longer than 2", "recursive / closure callbacks (the callback is a probe)"],
+prop("C13", [U_BINOP_SCALAR], "other",
+     "Only the scalar forms are decided: the scalar via / into arms of evaluate_binary_op_ast apply the function exactly once "
+     "to the left operand, with the function value as self-reference, at a call depth not below the current one, and the "
+     "call's result or failure is the operator's (U-BINOP-SCALAR, apply group) - i.e. `x into f` is f(x). The list forms "
+     "(via = map, where = filter against one callback-sequence specification, U-HOF in kani/unregistered_hof_harness.rs.txt) "
+     "were written but a single harness at list length <= 2 did not finish in 40 minutes; not registered.",
+     ["list forms of via / where and map / filter / reduce / every / some / sort_by / group_by (lists through the heap)",
+      "recursive / closure callbacks (the callback is a probe)"],
      BCAST_ASSUME[:4])
 
 
